@@ -15,6 +15,10 @@ Done == l' = l + 1 /\ j' = 0
 
 J(res) == IF res.err = "none" THEN [e |-> "none", k |-> res.log, a |-> res.b1, b |-> res.b2]
           ELSE [e |-> res.err]
+(* the recorded result o has exactly the fields the specification predicts, with
+   the same values (extra recorded fields such as is_valid are used by other specs) *)
+Same(x, o) == DOMAIN x \subseteq DOMAIN o /\ x = [f \in DOMAIN x |-> o[f]]
+              /\ (x.e # "none" => o.e = x.e)
 Warn(g) == G!SzLT(IF g.fixed # G!NoSize THEN g.fixed ELSE g.ref.size, <<0, 4097>>)
 
 Init == l = 1 /\ j = 0 /\ gens = <<>>
@@ -37,10 +41,25 @@ EvFin == /\ Ev("fin")
                 x == [t |-> J(G!GFin(g, TRUE, FALSE)), n |-> J(G!GFin(g, FALSE, TRUE)),
                       s |-> J(G!GFin(g, FALSE, FALSE)), u |-> J(G!GFin(g, TRUE, TRUE)),
                       sz |-> g.ref.size, warn |-> Warn(g)]
-            IN Expect(x.t = E.t /\ x.n = E.n /\ x.s = E.s /\ x.u = E.u
+            IN Expect(Same(x.t, E.t) /\ Same(x.n, E.n) /\ Same(x.s, E.s) /\ Same(x.u, E.u)
                       /\ x.sz = E.sz /\ x.warn = E.warn, <<l, "fin", x>>)
          /\ UNCHANGED gens /\ Done
-Next == EvNew \/ EvZeros \/ EvClone \/ EvReset \/ EvUpd \/ EvFix \/ EvFin
+(* hash_buf / hash_stream over the bytes fed to g: both create their own generator;
+   hash_buf declares the size (equal to what it then feeds), so both must return the
+   default (truncated, short) hash of exactly those bytes *)
+EvEasy == /\ (Ev("hashbuf") \/ Ev("hashstream"))
+          /\ LET x == J(G!RFin(gens[E.g].ref, TRUE, FALSE)) IN
+             Expect(Same(x, E.r), <<l, E.ev, x>>)
+          /\ UNCHANGED gens /\ Done
+(* a generator that was REALLY fed n zero bytes by update() (too many to step one by one) *)
+EvRealZeros == Ev("realzeros") /\ gens' = (E.g :> ZerosState(E.n)) @@ gens /\ Done
+(* the guarded hook against really feeding zeros: abstract states equal (lemma at real
+   constants) and the implementation's inner data compared equal *)
+EvSame == /\ Ev("same")
+          /\ Expect(gens[E.g] = gens[E.h], <<l, "same-spec", "ZerosState(n) differs from n zero steps">>)
+          /\ Expect(E.r = TRUE, <<l, "same-hook", "hook state differs from really feeding zeros">>)
+          /\ UNCHANGED gens /\ Done
+Next == EvEasy \/ EvRealZeros \/ EvSame \/ EvNew \/ EvZeros \/ EvClone \/ EvReset \/ EvUpd \/ EvFix \/ EvFin
 Spec == Init /\ [][Next]_vars
 Progress == Mark(l)
 =============================================================================
